@@ -1,12 +1,18 @@
 ---------------------------- MODULE ReadBufferSim ----------------------------
 (* Schedules for the deterministic scheduler of the C08 harness: random walks of ReadBuffer  *)
 (* (real capacity) recorded as the sequence of readers taking their next atomic step.        *)
+(* Some readers are "slow": having claimed a slot they stall before publishing it until the  *)
+(* drain has passed that slot (or the other readers have finished), which is the window in   *)
+(* which lazily published slots, stale slots and the token interact.                         *)
 EXTENDS ReadBuffer, Json, IOUtils
 CONSTANT Depth
-VARIABLE hist
-SimInit == Init /\ hist = <<[readers |-> Cardinality(Readers), adds |-> MaxAdds]>>
-SimNext == \E r \in Readers : Step(r) /\ hist' = Append(hist, [r |-> r])
-SimSpec == SimInit /\ [][SimNext]_<<vars, hist>>
+VARIABLES hist, slow
+Fast == Readers \ slow
+CanStep(r) == ~( /\ r \in slow /\ pc[r] = "publish" /\ head <= lt[r]
+                 /\ \E o \in Fast : cnt[o] < MaxAdds \/ pc[o] # "idle" )
+SimInit == Init /\ hist = <<[readers |-> Cardinality(Readers), adds |-> MaxAdds]>> /\ slow \in (SUBSET Readers) \ {Readers}
+SimNext == \E r \in Readers : CanStep(r) /\ Step(r) /\ hist' = Append(hist, [r |-> r]) /\ UNCHANGED slow
+SimSpec == SimInit /\ [][SimNext]_<<vars, hist, slow>>
 Export == IF TLCGet("level") >= Depth \/ ~ENABLED SimNext
           THEN ndJsonSerialize(IOEnv.VERIF_SIMDIR \o "/sim_" \o ToString(TLCGet("stats").traces) \o ".ndjson", hist)
           ELSE TRUE
